@@ -319,6 +319,14 @@ class RemoteIteratorQueue(iter_utils.AsyncIterableQueue[_T]):
     name = name or q.name
     return cls(RemoteObject.new(q, worker=server_addr), name=name)
 
+  def maybe_stop(self):
+    """Stops the enqueuers of the queue on the server."""
+    self._queue.maybe_stop().result_()
+
+  async def async_maybe_stop(self):
+    """Stops the enqueuers of the queue on the server."""
+    await self._queue.maybe_stop().async_result_()
+
   def get(self):
     logging.debug('chainable: %s', f'remote queue "{self.name}" get')
     return self._queue.get().result_()
